@@ -10,14 +10,16 @@ Init == hist = <<[t |-> "proc", cache |-> TRUE]>> /\ jit = InitJit /\ done = FAL
 InitOff == hist = <<[t |-> "proc", cache |-> FALSE]>> /\ jit = [InitJit EXCEPT !.cacheOn = FALSE] /\ done = FALSE
 (* one aggregate() call with one helper, or with two helpers on the same column ("in the same call") *)
 Call == /\ ~done /\ Calls(hist) < MaxCalls
-        /\ \E h \in Helpers, k \in Kinds, h2 \in Helpers \cup {""} :
+        /\ \E h \in Helpers, k \in Kinds, h2 \in Helpers \cup {""}, py \in BOOLEAN :
               /\ Accepts(h, k) /\ (h2 # "" => Accepts(h2, k) /\ h2 # h /\ TwoHelperCalls)
+              /\ (py => h \in PyCapable /\ h2 = "" /\ (h = "median" => k = "float"))     \* only a float column holds NaN
               /\ LET j1 == AfterCall(jit, h, k) IN
-                 /\ hist' = Append(hist, [t |-> "call", h |-> h, kind |-> k, status |-> Status(jit, h, k),
-                                         broken |-> Broken(jit, h, k), h2 |-> h2,
+                 /\ hist' = Append(hist, [t |-> "call", h |-> h, kind |-> k, py |-> py,
+                                         status |-> IF py THEN "python" ELSE Status(jit, h, k),
+                                         broken |-> IF py THEN FALSE ELSE Broken(jit, h, k), h2 |-> h2,
                                          status2 |-> IF h2 = "" THEN "" ELSE Status(j1, h2, k),
                                          broken2 |-> IF h2 = "" THEN FALSE ELSE Broken(j1, h2, k)])
-                 /\ jit' = IF h2 = "" THEN j1 ELSE AfterCall(j1, h2, k)
+                 /\ jit' = IF py THEN jit ELSE IF h2 = "" THEN j1 ELSE AfterCall(j1, h2, k)
         /\ done' = FALSE
 Proc == /\ ~done /\ Procs(hist) < MaxProcs /\ hist[Len(hist)].t = "call"
         /\ \E c \in BOOLEAN : hist' = Append(hist, [t |-> "proc", cache |-> c]) /\ jit' = NewProcess(jit, c)
